@@ -155,6 +155,33 @@ func race(script string, dir, base string, timeout int, all bool) (solveResult, 
 // Solve discharges one obligation: phase A without quantified assumptions,
 // phase B with all assumptions.
 func (o *Obligation) Solve(dir string, timeout int, all bool) {
+	if len(o.Parts) > 1 {
+		// one query per conjunct; discharged iff every one is unsat
+		total := 0.0
+		for i, p := range o.Parts {
+			sub := *o
+			sub.Parts = nil
+			sub.Goal = p
+			sub.Name = fmt.Sprintf("%s.part%d", o.Name, i)
+			if p == "true" {
+				continue
+			}
+			sub.Solve(dir, timeout, all)
+			total += sub.Seconds
+			if sub.Status != "unsat" {
+				o.Status, o.Solver, o.Raw, o.Model, o.Phase = sub.Status, sub.Solver, sub.Raw, sub.Model, sub.Phase
+				o.Seconds = total
+				return
+			}
+			o.Solver = sub.Solver
+		}
+		o.Status = "unsat"
+		o.Seconds = total
+		if o.Solver == "" {
+			o.Solver = "syntactic"
+		}
+		return
+	}
 	base := sanitize(o.Name)
 	if len(base) > 150 {
 		base = base[:150]
